@@ -20,6 +20,32 @@ import copy
 from .core import walk_no_nested, call_name, func_params
 
 
+def alpha(expr):
+    """Copy of an expression with the variables bound by comprehensions / lambdas renamed to _c0, _c1, ... in order of
+    appearance (alpha-equivalence of bound variables)."""
+    e = clone(expr)
+    mapping = {}
+
+    def bind(t):
+        for n in ast.walk(t):
+            if isinstance(n, ast.Name) and n.id not in mapping:
+                mapping[n.id] = f'_c{len(mapping)}'
+    for n in ast.walk(e):
+        if isinstance(n, (ast.ListComp, ast.SetComp, ast.GeneratorExp, ast.DictComp)):
+            for g in n.generators:
+                bind(g.target)
+        elif isinstance(n, ast.Lambda):
+            for a in n.args.args:
+                if a.arg not in mapping:
+                    mapping[a.arg] = f'_c{len(mapping)}'
+    for n in ast.walk(e):
+        if isinstance(n, ast.Name) and n.id in mapping:
+            n.id = mapping[n.id]
+        elif isinstance(n, ast.arg) and n.arg in mapping:
+            n.arg = mapping[n.arg]
+    return e
+
+
 def clone(node):
     """Deep copy of a syntax tree that follows only syntactic children (not the ``_parent`` / ``_cls`` links the
     Program adds, which would drag the whole module along); keeps positions and the ``_src_*`` marks."""
@@ -1059,11 +1085,26 @@ def branch_values(stmts, sink, env0=None, max_paths=2000, follow_loops=False, op
                     # the test folded to a constant on this path (e.g. a temporary that is still None): one branch only
                     run(list(st.body if folded else st.orelse) + rest, env, conds, nodes)
                     return
-                # a path that assumes both a condition and its negation is infeasible
-                if ntt not in conds:
-                    run(list(st.body) + rest, env, conds + [tt], nodes + [t])
-                if tt not in conds:
-                    run(list(st.orelse) + rest, env, conds + [ntt], nodes + [nt])
+                # a path that assumes both a condition and its negation is infeasible; a conjunction contributes its
+                # conjuncts one by one (``if a and b`` and ``if a: if b`` give the same path conditions)
+                def assume(c_node):
+                    parts = c_node.values if isinstance(c_node, ast.BoolOp) and isinstance(c_node.op, ast.And) else [c_node]
+                    cs, ns = list(conds), list(nodes)
+                    for p_ in parts:
+                        p_ = canon(p_)
+                        pt, npt = ctext(p_), ctext(negate(p_))
+                        if npt in cs:
+                            return None
+                        if pt not in cs:
+                            cs.append(pt)
+                            ns.append(p_)
+                    return cs, ns
+                a_true = assume(t) if ntt not in conds else None
+                a_false = assume(nt) if tt not in conds else None
+                if a_true is not None:
+                    run(list(st.body) + rest, env, a_true[0], a_true[1])
+                if a_false is not None:
+                    run(list(st.orelse) + rest, env, a_false[0], a_false[1])
                 return
             if isinstance(st, (ast.Return, ast.Raise, ast.Continue, ast.Break)):
                 return
@@ -1097,41 +1138,61 @@ def merge_outcomes(outs, max_vars=14):
     groups = {}
     for o in outs:
         groups.setdefault((id(o.stmt), o.vtext, ctext(o.target) if o.target is not None else None), []).append(o)
+
+    def form(n):
+        """Boolean formula over atomic conditions: ('and'|'or', [..]) | ('not', f) | ('atom', var, polarity)."""
+        if isinstance(n, ast.BoolOp):
+            return ('and' if isinstance(n.op, ast.And) else 'or', [form(v) for v in n.values])
+        if isinstance(n, ast.UnaryOp) and isinstance(n.op, ast.Not) and isinstance(n.operand, ast.BoolOp):
+            return ('not', form(n.operand))
+        t = ctext(n)
+        nt = ctext(negate(n))
+        var = min(t, nt)
+        return ('atom', var, t == var)
+
+    def atoms(f, acc):
+        if f[0] == 'atom':
+            acc.add(f[1])
+        elif f[0] == 'not':
+            atoms(f[1], acc)
+        else:
+            for g in f[1]:
+                atoms(g, acc)
+        return acc
+
+    def ev(f, assign):
+        if f[0] == 'atom':
+            return assign[f[1]] == f[2]
+        if f[0] == 'not':
+            return not ev(f[1], assign)
+        if f[0] == 'and':
+            return all(ev(g, assign) for g in f[1])
+        return any(ev(g, assign) for g in f[1])
+
     result = []
     for key, members in groups.items():
-        lit = {}            # cond text -> (variable, polarity)
-        node_of = {}
-        terms = []
+        terms = []          # [(text, node, formula)]
         for o in members:
-            term = {}
-            for t, n in zip(o.conds, o.cond_nodes):
-                if t not in lit:
-                    nt_node = negate(n)
-                    nt = ctext(nt_node)
-                    var = min(t, nt)
-                    lit[t] = (var, t == var)
-                    lit.setdefault(nt, (var, nt == var))
-                    node_of.setdefault(t, n)
-                    node_of.setdefault(nt, nt_node)
-                var, pol = lit[t]
-                if term.get(var, pol) != pol:
-                    term = None     # contradictory path
-                    break
-                term[var] = pol
-            if term is not None:
-                terms.append(term)
-        variables = sorted({v for t in terms for v in t})
+            terms.append([(t, n, form(n)) for t, n in zip(o.conds, o.cond_nodes)])
+        variables = sorted({v for term in terms for _, _, f in term for v in atoms(f, set())})
         if not terms:
             continue
         if len(variables) > max_vars:
             relevant = set(variables)
+            live = terms
         else:
+            def term_holds(term, assign):
+                return all(ev(f, assign) for _, _, f in term)
+
             def holds(assign):
-                return any(all(assign[v] == p for v, p in t.items()) for t in terms)
+                return any(term_holds(t, assign) for t in terms)
             relevant = set()
-            idx = {v: i for i, v in enumerate(variables)}
+            sat = [False] * len(terms)
             for bits in itertools.product((False, True), repeat=len(variables)):
                 assign = dict(zip(variables, bits))
+                for k, t in enumerate(terms):
+                    if not sat[k] and term_holds(t, assign):
+                        sat[k] = True
                 base = holds(assign)
                 for v in variables:
                     if v in relevant:
@@ -1140,16 +1201,19 @@ def merge_outcomes(outs, max_vars=14):
                     if holds(assign) != base:
                         relevant.add(v)
                     assign[v] = not assign[v]
-        projected = {frozenset((v, p) for v, p in t.items() if v in relevant) for t in terms}
-        # absorption
-        projected = {a for a in projected if not any(b < a for b in projected)}
-        text_of = {}
-        for t, (v, p) in lit.items():
-            text_of[(v, p)] = t
+            live = [t for k, t in enumerate(terms) if sat[k]]       # contradictory paths are dropped
+            if not live:
+                continue
+        projected = {}
+        for term in live:
+            kept = [(t, n) for t, n, f in term if atoms(f, set()) & relevant]
+            k = frozenset(t for t, _ in kept)
+            projected.setdefault(k, dict(kept))
+        keys = [a for a in projected if not any(b < a for b in projected)]      # absorption
         proto = members[0]
-        for term in projected:
-            texts = sorted(text_of[l] for l in term)
-            result.append(Outcome(texts, proto.value, proto.stmt, [node_of[t] for t in texts], proto.target))
+        for k in keys:
+            texts = sorted(k)
+            result.append(Outcome(texts, proto.value, proto.stmt, [projected[k][t] for t in texts], proto.target))
     return result
 
 
